@@ -3,7 +3,7 @@
 TRUSTED_BASE = [
     "Coq 8.16.1 kernel (coqc); vm_compute is used in Examples and finite sweeps, native_compute is not; coqchk re-check in the thorough tier",
     "no axioms declared in the development; Print Assumptions of every property theorem is parsed on every run; a grep for Admitted/admit/Axiom/Parameter/... fails the check",
-    "extraction: Require Extraction + ExtrOcamlBasic only (Extract Inductive bool/option/unit/list/prod/sumbool/sumor, Extract Inlined Constant andb/orb); N/Z/positive/nat stay Coq's inductives; OCaml 4.13.1 ocamlopt; ocaml/driver.ml (val text parser/printer, comparison loop) and ocaml/families.ml (name table)",
+    "extraction: Require Extraction + ExtrOcamlBasic only (Extract Inductive bool/option/unit/list/prod/sumbool/sumor, Extract Inlined Constant andb/orb); N/Z/positive/nat stay Coq's inductives; OCaml 4.13.1 ocamlopt; ocaml/driver.ml (val text parser/printer, comparison loop) and ocaml/families.ml (name table); cross-checked on every run: a sample of the run's cases (every flagged one first) is re-evaluated inside Coq with vm_compute over the same definitions and must get the driver's verdicts (bin/incoq.py; counts under coverage.in_coq_reevaluation)",
     "parameter translator harness/cmd/verif-params (go/ast) regenerating coq/gen/Params.v from /repo on every run",
     "correspondence harness harness/cmd/impl-run (Go, built with -tags verif against /repo's working tree; generators, executors, projections of Go errors to enums)",
     "the models are hand-written Gallina mirroring the Go code; the Go runtime, bufio.Scanner, net/http, strconv, encoding/json, time, math/rand are modelled or scripted, not verified",
